@@ -59,6 +59,10 @@ pub struct Config {
     pub eph: [Eph; 2],
     pub record: bool,
     pub crypto_oracle: bool,
+    /// the name string hashed into the handshake by each side, when different from `name`
+    /// (same primitive choices; built through the public `NoiseParams::name` field)
+    #[serde(default)]
+    pub hashed_name: [Option<String>; 2],
 }
 
 pub fn key_bytes(tag: u8) -> Vec<u8> {
@@ -100,6 +104,7 @@ impl Config {
             eph: [Eph::Fixed(key_bytes(3 + 4 * ks)), Eph::Fixed(key_bytes(4 + 4 * ks))],
             record: false,
             crypto_oracle: true,
+            hashed_name: [None, None],
         }
     }
     pub fn scripted(mut self, seed: u64) -> Config {
@@ -142,6 +147,8 @@ pub enum Msg {
     Last(Side),
     Garbage(usize, u8),
     Altered(Box<Msg>, Alter),
+    /// literal bytes (e.g. a message of a parallel session)
+    Raw(Vec<u8>),
 }
 
 #[derive(Clone, PartialEq, Eq, Hash, Debug, Serialize, Deserialize)]
@@ -428,8 +435,11 @@ pub struct StepRecord {
 }
 
 pub fn build_real(cfg: &Config, side: Side, log: &Log) -> Result<HandshakeState, snow::Error> {
-    let params: NoiseParams = cfg.name.parse()?;
+    let mut params: NoiseParams = cfg.name.parse()?;
     let i = side.idx();
+    if let Some(n) = &cfg.hashed_name[i] {
+        params.name = n.clone();
+    }
     let rng = match &cfg.eph[i] {
         Eph::Fixed(_) => RngMode::Scripted(0x5eed_0000 + i as u64),
         Eph::Scripted(s) => RngMode::Scripted(*s),
@@ -572,6 +582,7 @@ impl Exec {
                 Some(i) => (self.wires[s.idx()][i].bytes.clone(), Some((*s, i))),
                 None => (vec![], None),
             },
+            Msg::Raw(b) => (b.clone(), None),
             Msg::Garbage(len, fill) => ((0..*len).map(|i| fill.wrapping_add((i as u8).wrapping_mul(5))).collect(), None),
             Msg::Altered(base, alt) => {
                 let (mut b, prov) = self.resolve_msg(base);
